@@ -9,8 +9,9 @@
   the fields) and the concurrent stress `c07.hist`.
 -/
 import Rtp.Proofs.Sequencer
+import Rtp.Proofs.SequencerConc
 namespace Rtp.Props.C07
-open Rtp Rtp.Model Rtp.Spec.Counter Rtp.Pred.C07 Rtp.Proofs.Sequencer
+open Rtp Rtp.Model Rtp.Spec.Counter Rtp.Pred.C07 Rtp.Proofs.Sequencer Rtp.Proofs.SequencerConc
 
 /-- **c07_sequential.**  For every start (any fixed value; any random initial value the
     generator can return) and every program of calls, of any length: the predicate the harness
@@ -78,5 +79,79 @@ theorem c07_start :
     simp only [SeqState.maxInitialRandom] at h; omega
 
 example : (SeqState.newFixed 0).next.1 = 0 ∧ (SeqState.newFixed 0).seq = 65535 := by decide
+
+/-- **c07_interleaving.**  The small-step system of Rtp/Model/Sequencer.lean: any number of threads
+    (`prog i` is thread i's list of calls; all but finitely many may be empty — or not), any initial
+    state, ANY schedule.  Whenever no call is in flight, the log of completed calls in
+    lock-release (= lock-acquisition) order
+
+    * is a legal sequential history of the sequencer: replaying it on the sequential model
+      reproduces every returned value (`replayOk`),
+    * respects real-time order: no call in it returned (drew its `after` ticket) before a call
+      placed earlier was invoked (drew its `before` ticket) (`rtOk`),
+    * contains, per thread and in program order, exactly the calls that thread has made.
+
+    That is linearizability; the facts of `c07_sequential` therefore hold in that order. -/
+theorem c07_interleaving (s0 : SeqState) (prog : Nat → List Op) (sched : List Nat) (s : Sys)
+    (hrun : (Sys.init s0 prog).run sched = some s) (hq : s.Quiescent) :
+    isLinearization s0 s.lin = true ∧ (∀ i, doneBy s i ++ (s.thr i).todo = prog i) :=
+  ⟨inv_quiescent (inv_run (inv_init s0 prog) sched hrun) hq, prog_run (prog_init s0 prog) sched hrun⟩
+
+/-- non-vacuity: two threads contend near the wrap; thread 1 acquires the mutex first although
+    thread 0 drew its ticket first (thread 0 cannot move while the mutex is held: a schedule naming
+    it then is not an execution); the run is complete and its log is as shown -/
+def exProg : Nat → List Op
+  | 0 => [.next, .roc]
+  | 1 => [.next]
+  | _ => []
+def exSched : List Nat := [0, 1, 1, 1, 1, 1, 1, 0, 1, 0, 0, 0, 0, 0, 0, 0, 0, 0, 0]
+
+example : ((Sys.init (SeqState.newFixed 65535) exProg).run [0, 1, 1, 0]).isNone = true := by decide
+example : ((Sys.init (SeqState.newFixed 65535) exProg).run exSched).map (·.lin) =
+    some [{ g := 1, op := .next, before := 2, after := 3, res := 65535 },
+          { g := 0, op := .next, before := 1, after := 4, res := 0 },
+          { g := 0, op := .roc, before := 5, after := 6, res := 1 }] := by decide
+example : ∃ s, (Sys.init (SeqState.newFixed 65535) exProg).run exSched = some s ∧ s.Complete := by
+  refine ⟨_, rfl, ?_⟩
+  intro i
+  match i with
+  | 0 => decide
+  | 1 => decide
+  | n + 2 => exact ⟨rfl, rfl⟩
+
+/-- the same for complete executions, as a statement about the history as a *set* of calls (what
+    the harness records per goroutine): it is `Linearizable`, and thread i's calls are `prog i` -/
+theorem c07_interleaving_complete (s0 : SeqState) (prog : Nat → List Op) (sched : List Nat) (s : Sys)
+    (hrun : (Sys.init s0 prog).run sched = some s) (hc : s.Complete) :
+    (∀ H : List Call, H.Perm s.lin → Linearizable s0 H) ∧ (∀ i, doneBy s i = prog i) := by
+  obtain ⟨h1, h2⟩ := c07_interleaving s0 prog sched s hrun (fun i => (hc i).1)
+  refine ⟨fun H hH => ⟨s.lin, hH.symm, h1⟩, fun i => ?_⟩
+  have := h2 i
+  rw [(hc i).2, List.append_nil] at this
+  exact this
+
+/-- … hence what `c07_sequential` says holds of the values in linearization order: for a sequencer
+    made by one of the two constructors, the log's results satisfy the sequential predicate -/
+theorem c07_interleaving_values (st : Start) (hwf : st.wf = true) (prog : Nat → List Op) (sched : List Nat)
+    (s : Sys) (hrun : (Sys.init st.state prog).run sched = some s) (hq : s.Quiescent) :
+    runOk st (s.lin.map (·.op)) (s.lin.map (·.res)) = true := by
+  have h := (c07_interleaving st.state prog sched s hrun hq).1
+  simp only [isLinearization, Bool.and_eq_true] at h
+  rw [replayOk_run _ _ h.1.2]
+  exact c07_sequential st hwf _
+
+/-- the executable check is sound by construction: what it accepts is `Linearizable` -/
+theorem c07_linearizable_sound (s0 : SeqState) (H : List Call) (h : linearizable s0 H = true) :
+    Linearizable s0 H := by
+  refine ⟨order s0 H, ?_, h⟩
+  unfold order
+  refine (List.Perm.map _ (List.mergeSort_perm _ _)).trans ?_
+  rw [List.map_map]
+  have : ((fun x : (Nat × Nat) × Call => x.2) ∘ fun x : Call × Nat => match x with
+      | (c, i) => (((assign (2 * H.length + 2) s0 0 [] (H.zipIdx.mergeSort fun a b => decide (a.1.before ≤ b.1.before))
+          (Array.replicate H.length 0)).getD i 0, c.before), c)) = Prod.fst := by
+    funext x; rfl
+  rw [this]
+  simp
 
 end Rtp.Props.C07
